@@ -418,6 +418,9 @@ class Table(Vector):
 			# Parse for indexed accessor pattern (e.g., 'total__5')
 			base_name, col_idx_indexed = _parse_indexed_attr(attr)
 			
+			if isinstance(value, tuple):
+				# a tuple would become the new column's storage itself, shared with the caller
+				value = list(value)
 			if col_idx_indexed is not None:
 				# Indexed assignment: validate column index and name match
 				if col_idx_indexed < 0 or col_idx_indexed >= len(self._underlying):
